@@ -10,6 +10,7 @@ package main
 //	replicaRecvGoodCase  the statements of its first case: increment, quorum test, return
 //	replicaCtorGuards    the conditions of the top-level if statements of newFromConfig, in source order
 //	replicaRanges        (method, replica list it ranges over / hands to the merge)
+//	replicaFetchShape    the if conditions of Fetch with the statements they guard, and its final return
 //	mergedEnumShape      tooLow's body, the loop condition, the "lower than lowest" test
 
 import (
@@ -25,6 +26,7 @@ func init() {
 		rawSpec{"replicaCtorGuards", "C12", c12CtorGuards},
 		rawSpec{"replicaRanges", "C12", c12Ranges},
 		rawSpec{"mergedEnumShape", "C12", c12MergedShape},
+		rawSpec{"replicaFetchShape", "C12", c12FetchShape},
 	)
 	fingerprintSpecs = append(fingerprintSpecs,
 		fpSpec{"pkg/blobserver/replica", "", "newFromConfig"},
@@ -190,4 +192,33 @@ func c12MergedShape() (string, any) {
 		fail("pkg/blobserver: shape of mergedEnumerate not found")
 	}
 	return fmt.Sprintf("def mergedEnumShape : List String := %s\n", c12LeanStrList(out)), out
+}
+
+// Fetch: every `if` (condition, then the statements of its body) and every top-level return, in source order
+func c12FetchShape() (string, any) {
+	p := load("pkg/blobserver/replica")
+	fd := p.funcDecl("replicaStorage", "Fetch")
+	var out []string
+	if fd == nil || fd.Body == nil {
+		fail("pkg/blobserver/replica: Fetch not found")
+	} else {
+		var walk func(list []ast.Stmt)
+		walk = func(list []ast.Stmt) {
+			for _, st := range list {
+				switch x := st.(type) {
+				case *ast.IfStmt:
+					out = append(out, "if "+p.src(x.Cond))
+					for _, b := range x.Body.List {
+						out = append(out, p.src(b))
+					}
+				case *ast.RangeStmt:
+					walk(x.Body.List)
+				case *ast.ReturnStmt:
+					out = append(out, p.src(x))
+				}
+			}
+		}
+		walk(fd.Body.List)
+	}
+	return fmt.Sprintf("def replicaFetchShape : List String := %s\n", c12LeanStrList(out)), out
 }
